@@ -50,7 +50,7 @@ claim("C11", "Theorems RDS.C11 / C11_generated (ECC and country follow the abstr
       "Lean 4 proof: refinement + kernel-checked table theorem over the regenerated table (T1); sweep 17 PI classes x 256 ECC x 8 variants x 2 versions", "§6 C11")
 claim("C18", "Kernel-checked theorems over the complete input/output graph of the five lookup functions read out of the compiled library (all 256 arguments each): C18_pty, C18_pty_width, C18_country_name, C18_country_iso, C18_iso_two_letters, C18_iso_distinct against the hand-written PTY / ISO 3166-1 reference. Exhaustive: the domain is finite and fully enumerated on every run (ASan build: non-NULL, NUL-terminated).",
       "Lean 4 kernel-checked table theorems over exhaustively extracted lookup graphs (T1)", "§6 C18")
-claim("C20", "PARTIAL + KNOWN FINDING. Proved: every history theorem for both charset instantiations (*_generated), the narrow build's character rule read out of the real build (C20_narrow_table/_is_conv), equal constants/tables across builds (C20_consts), injectivity of the charset on 0x20..0x7E (C20_g0_injective_ascii). "
+claim("C20", "PARTIAL + KNOWN FINDING. Proved: every history theorem for both charset instantiations (*_generated), the narrow build's character rule read out of the real build (C20_narrow_table/_is_conv), equal constants/tables across builds (C20_consts), C20_ascii / C20_ascii_step (on histories presenting no byte >= 0x7F the narrow state seen through the character embedding IS the wide state, same results and callbacks) and C20_nontext / C20_nontext_step (for ALL histories everything but text characters/levels, incl. which cells are received, and all non-text callbacks are identical), both also instantiated for the regenerated table. "
       "C20_full_false: the full statement (every level and callback identical) is FALSE of the code and of the model — recorded in known_findings.json by its witness. On every run the four real builds are compared with their own instantiation and with each other; any build-specific divergence other than the known finding is a violation.",
       "Lean 4 proof (generic-in-configuration theorems, simulation between the two charset instantiations, kernel-checked counter-example) + cross-build differential testing of the four real builds", "§6 C20", "PARTIAL: the full statement is refuted (known finding C20-same-data-on-converted-chars); the no-heap build and cross-build identity are tested, not proved.")
 
